@@ -51,6 +51,30 @@ fn unit_config_new_service() {
 }
 
 /// the returned future is the inner one: polling it yields the inner outcome (Pending / Ok / Err all possible)
+/// Clone: a clone is the same combinator over the same parts — `map_config_new_service` holds of it verbatim   [C11]
+#[kani::proof]
+fn map_config_new_service_on_clone() {
+    let orig = MapConfig::<_, u8, _, u16>::new(LeafFactory { id: 0 }, cfg_mapper);
+    let fac = orig.clone();          // everything below is asked of the CLONE
+    let c: u16 = kani::any();
+    let f: OFactFut = fac.new_service(c);
+    assert!(m_calls() == 1 && m_arg() == c);
+    assert!(new_calls(0) == 1 && new_cfg(0) == m_ret());
+    assert!(fact_polls(0) == 0 && f.id == 0 && !f.done);
+}
+
+/// Clone: a clone is the same combinator over the same parts — `unit_config_new_service` holds of it verbatim   [C11]
+#[kani::proof]
+fn unit_config_new_service_on_clone() {
+    let orig = UnitConfig::<_, u16, u8>::new(UnitLeafFactory { id: 0 });
+    let fac = orig.clone();          // everything below is asked of the CLONE
+    let f: OFactFut = fac.new_service(kani::any());
+    assert!(new_calls(0) == 1 && fact_polls(0) == 0 && f.id == 0 && !f.done);
+    let fac2 = unit_config::<_, _, u16, u8>(UnitLeafFactory { id: 1 });
+    let g: OFactFut = fac2.new_service(kani::any());
+    assert!(new_calls(1) == 1 && fact_polls(1) == 0 && g.id == 1 && !g.done && new_calls(0) == 1);
+}
+
 #[kani::proof]
 fn reach() {
     let fac = MapConfig::<_, u8, _, u16>::new(LeafFactory { id: 0 }, cfg_mapper);
